@@ -24,6 +24,7 @@ type caseEv struct {
 	N       int      `json:"n"`
 	Deflt   int      `json:"deflt"`
 	DefltNg int      `json:"defltneg"`
+	Sat     int      `json:"sat"` // results of the saturating probe under an explicit large limit
 	EffLim  int      `json:"efflim"`
 	Path    string   `json:"path"`
 	Panic   bool     `json:"panic"`
@@ -54,6 +55,7 @@ type caseRunner struct {
 	in    *interner
 	tr    int
 	deflt map[string][2]int
+	sat   map[string]int
 	props map[string]bool
 	reps  int
 }
@@ -80,6 +82,16 @@ func (cr *caseRunner) defaults(entry string) [2]int {
 		out, _ := runEntry(c, s, s.queryText())
 		d[i] = len(out.hits)
 	}
+	// how many results the probe yields when asked for all of them: a default limit is a cut below that
+	ss := scenario{Entry: entry, Limit: 1000, AllPlat: entry != "pipeline", Query: "lex", Corpus: "mix"}
+	if entry == "cli" {
+		ss.NLP, ss.Fuzzy, ss.Thr, ss.Limit = true, true, -30, 100
+	}
+	so, _ := runEntry(c, ss, ss.queryText())
+	if cr.sat == nil {
+		cr.sat = map[string]int{}
+	}
+	cr.sat[entry] = len(so.hits)
 	cr.deflt[entry] = d
 	return d
 }
@@ -104,6 +116,7 @@ func (cr *caseRunner) run(s scenario) {
 	}
 	d := cr.defaults(s.Entry)
 	ev.Deflt, ev.DefltNg = d[0], d[1]
+	ev.Sat = cr.sat[s.Entry]
 	ev.EffLim = s.Limit
 	if s.Limit < 1 {
 		ev.EffLim = d[0]
